@@ -8,6 +8,9 @@ git checkout -q -- . && git checkout -q --detach "$(git -C /repo rev-parse HEAD)
 echo "== demo on clean HEAD"; bash "$SD/demo.sh" "$WT" >/tmp/seed_demo_clean.log 2>&1; RC_CLEAN=$?
 git apply "$SD/patch.diff" || { echo "PATCH DOES NOT APPLY"; exit 3; }
 echo "== tests with change"
+# (a worktree that was moved keeps test binaries with the old path baked in: force the one snapshot-reading test crate to rebuild - mtime only)
+touch prqlc/prqlc-parser/src/test.rs 2>/dev/null
+export CARGO_INCREMENTAL=0
 CARGO_NET_OFFLINE=true cargo nextest run --workspace --no-fail-fast --tool-config-file pb:/w/lib/nextest.toml --profile pb --test-threads 8 --offline 2>&1 | tail -3 | tee /tmp/seed_tests.log
 echo "== demo with change"; bash "$SD/demo.sh" "$WT" >/tmp/seed_demo_patched.log 2>&1; RC_PATCHED=$?
 git checkout -q -- .
